@@ -209,7 +209,13 @@ def _resolve_identifier(
             f"Inherited expression does not expose attributes: {identifier.name}"
         )
 
-    for index, scope in enumerate(ordered_scopes):
+    # Nix scoping: a `with` environment is consulted only when no enclosing
+    # lexical scope binds the name, so visit lexical scopes first.
+    indexed_scopes = list(enumerate(ordered_scopes))
+    visit_order = [
+        item for item in indexed_scopes if not getattr(item[1], "from_with", False)
+    ] + [item for item in indexed_scopes if getattr(item[1], "from_with", False)]
+    for index, scope in visit_order:
         scope_chain = tuple(reversed(ordered_scopes[index:]))
         outer_chain = (
             tuple(reversed(ordered_scopes[index + 1 :]))
